@@ -165,15 +165,18 @@ def grown_problem(cls_name, rng, n):
 
 
 # ------------------------------------------------------------------------------------------ oracle
-def same(p, c):
-    """the static part of the property: returns a list of discrepancies (empty = fine)"""
+def same(p, c, full=True):
+    """the static part of the property: returns a list of discrepancies (empty = fine).
+    __eq__ of every problem class starts by comparing the two kinds, so `original == clone` being True already says the
+    kinds are equal; the explicit kind comparison and the symmetric `clone == original` are made when `full` (after
+    clone(), after a re-clone, every few edits, at the end) or as a diagnosis when == is False."""
     bad = []
     try:
         if not (p == c):
             bad.append("original != clone")
-        if not (c == p):
+        if (full or bad) and not (c == p):
             bad.append("clone != original")
-        if p.kind != c.kind:
+        if (full or bad) and p.kind != c.kind:
             bad.append("kind differs")
         if hash(p) != hash(c):
             bad.append("hash differs")
@@ -241,7 +244,7 @@ def run_pair(source, p, rng, n_both, n_single, probe=0.15, reclone=0.08, rec=Non
         step = {"side": "both", "spec": spec, "out_p": op_, "out_c": oc_}
         if op_ != oc_:
             tr.bad("edit %s: original -> %s, clone -> %s" % (spec["op"], op_, oc_), "outcome:" + spec["op"])
-        ws = same(p, c)
+        ws = same(p, c, full=(i % 4 == 3 or i == n_both - 1))
         step["eq"] = not ws
         tr.steps.append(step)
         if rec:
